@@ -322,7 +322,45 @@ fn history(t: &mut Tape, rec: &mut Rec<'_>) {
         let op = match t.weighted(&[3, 1, 3, 3]) {
             0 => Op::Add(gen_batch(t, &model, true)),
             1 => Op::From(gen_batch(t, &Model::default(), true)),
-            2 => Op::Upsert(gen_batch(t, &model, false)),
+            2 => {
+                // one upsert call that changes an entity twice and cuts one of its children loose: [M, M', C] where C is a
+                // child of M with descendants of its own (stale-edge stripping works on half-updated ancestor sets here)
+                let shaped: Option<Vec<GEnt>> = if t.bool_p(1, 2) {
+                    let cands: Vec<(usize, usize)> = model
+                        .recs
+                        .iter()
+                        .flat_map(|(c, r)| r.parents.iter().filter(|m| model.recs.contains_key(*m)).map(move |m| (*m, *c)))
+                        .filter(|(_, c)| model.recs.iter().any(|(k, _)| k != c && model.reach(*k).contains(c)))
+                        .collect();
+                    if cands.is_empty() {
+                        None
+                    } else {
+                        let (m, c) = cands[t.upto(cands.len())];
+                        let mut p1 = std::collections::BTreeSet::new();
+                        p1.insert(t.upto(NU + 1));
+                        let mut p2 = p1.clone();
+                        p2.insert(t.upto(NU + 1));
+                        let attr = model.recs[&m].attr;
+                        let mut v = vec![GEnt { id: m, parents: if t.coin() { p1 } else { std::collections::BTreeSet::new() }, attr }, GEnt { id: m, parents: p2, attr }];
+                        let cut = GEnt { id: c, parents: if t.bool_p(3, 4) { std::collections::BTreeSet::new() } else { model.recs[&c].parents.clone() }, attr: model.recs[&c].attr };
+                        if t.coin() {
+                            v.push(cut);
+                        } else {
+                            v.insert(0, cut);
+                        }
+                        Some(v)
+                    }
+                } else {
+                    None
+                };
+                match shaped {
+                    Some(v) => {
+                        rec.label("upsert:same-uid-twice-and-its-child");
+                        Op::Upsert(v)
+                    }
+                    None => Op::Upsert(gen_batch(t, &model, false)),
+                }
+            }
             _ => {
                 let n = 1 + t.weighted(&[5, 2, 1]);
                 Op::Remove((0..n).map(|_| t.upto(NU + 1)).collect())
@@ -547,7 +585,7 @@ pub fn property() -> Property {
                Sub-check `enforce`: core from_entities(EnforceAlreadyComputed) on closures with 0..2 perturbed edges; non-trivial = perturbed, >=3 entities.",
         assumptions: &["reference model: map uid -> direct parents, DFS reachability, documented duplicate rule (deep_eq on ancestor closure)"],
         subs: vec![
-            SubCheck { name: "history", cases: (40_000, 1_000_000), tape_len: 400, run: history, min_labels: &[("remove/upsert-with-descendants", 1000), ("diamond", 1000), ("cycle-rejected", 1000), ("duplicate-rejected", 500)] },
+            SubCheck { name: "history", cases: (80_000, 1_600_000), tape_len: 400, run: history, min_labels: &[("remove/upsert-with-descendants", 2000), ("diamond", 2000), ("cycle-rejected", 2000), ("duplicate-rejected", 1000), ("upsert:same-uid-twice-and-its-child", 2000)] },
             SubCheck { name: "enforce", cases: (40_000, 1_000_000), tape_len: 80, run: enforce, min_labels: &[("accepted", 1000), ("input-unclosed", 1000), ("input-cyclic", 300)] },
         ],
     }
